@@ -18,6 +18,17 @@ class Files(staticfiles.BaseFiles[WSGIApp]):
     Support request range and cache (304 status code).
     """
 
+    def request_path(self, environ: Environ) -> str:
+        """
+        PEP 3333: `PATH_INFO` carries the bytes of the request path as latin-1
+        text. Decode them the way the file system encodes file names.
+        """
+        return (
+            environ.get("PATH_INFO", "")
+            .encode("latin-1")
+            .decode("utf-8", "surrogateescape")
+        )
+
     def file_response(
         self,
         filepath: str,
@@ -46,7 +57,7 @@ class Files(staticfiles.BaseFiles[WSGIApp]):
     ) -> Iterable[bytes]:
         if_none_match: str = environ.get("HTTP_IF_NONE_MATCH", "")
         if_modified_since: str = environ.get("HTTP_IF_MODIFIED_SINCE", "")
-        filepath = self.ensure_absolute_path(environ.get("PATH_INFO", ""))
+        filepath = self.ensure_absolute_path(self.request_path(environ))
         stat_result, is_file = self.check_path_is_file(filepath)
         if is_file and stat_result:
             assert filepath is not None  # Just for type check
@@ -76,7 +87,7 @@ class Pages(Files):
     ) -> Iterable[bytes]:
         if_none_match: str = environ.get("HTTP_IF_NONE_MATCH", "")
         if_modified_since: str = environ.get("HTTP_IF_MODIFIED_SINCE", "")
-        filepath = self.ensure_absolute_path(environ.get("PATH_INFO", ""))
+        filepath = self.ensure_absolute_path(self.request_path(environ))
         stat_result, is_file = self.check_path_is_file(filepath)
         if (
             stat_result is None  # filepath is not exist
